@@ -131,6 +131,7 @@ ABTU_ret_err static inline int ABTI_ktable_alloc_elem(ABTI_local *p_local,
         return ABT_SUCCESS;
     } else if (ABTU_likely(size <= ABTI_KTABLE_DESC_SIZE)) {
         /* Use memory pool. */
+        ABTI_VERIF_COV(ABTI_VERIF_C_KTABLE_NEW_BLOCK);
         void *p_mem;
         int abt_errno = ABTI_mem_alloc_desc(p_local, &p_mem);
         ABTI_CHECK_ERROR(abt_errno);
@@ -187,6 +188,7 @@ ABTI_ktable_set_impl(ABTI_local *p_local, ABTI_ktable *p_ktable,
     }
 
     /* The table does not have the same key */
+    ABTI_VERIF_POINT(ABTI_VERIF_P_KTABLE_SET_BEFORE_LOCK);
     if (is_safe)
         ABTD_spinlock_acquire(&p_ktable->lock);
     /* The linked list might have been extended. */
@@ -235,6 +237,7 @@ ABTU_ret_err static inline int ABTI_ktable_set(ABTI_global *p_global,
             if (ABTD_atomic_bool_cas_weak_ptr(pp_ktable, NULL,
                                               ABTI_KTABLE_LOCKED)) {
                 /* The lock was acquired, so let's allocate this table. */
+                ABTI_VERIF_COV(ABTI_VERIF_C_KTABLE_CREATED);
                 abt_errno = ABTI_ktable_create(p_global, p_local, &p_ktable);
                 if (abt_errno != ABT_SUCCESS) {
                     ABTD_atomic_release_store_ptr(pp_ktable, NULL);
@@ -253,6 +256,7 @@ ABTU_ret_err static inline int ABTI_ktable_set(ABTI_global *p_global,
                     continue;
                 }
                 /* It has been locked by another. */
+                ABTI_VERIF_COV(ABTI_VERIF_C_KTABLE_CREATE_RACE_LOST);
                 while (p_ktable == ABTI_KTABLE_LOCKED) {
                     ABTD_atomic_pause();
                     p_ktable = ABTD_atomic_acquire_load_ptr(pp_ktable);
